@@ -309,7 +309,7 @@ CHECKS = {
         text='Model Sync/Sync.v of connectBlock / disconnectBlock / addRelevantTx / PutSyncedTo (window map with pruning at MaxReorgDepth) / syncWithChain '
              '(first synchronisation of a wallet whose birthday block is unknown: re-fetch the stamp at the located height, SetSyncedTo and '
              'SetBirthdayBlock in one transaction; the rollback loop; the birthday-reset branch when the rollback crosses the birthday block; one '
-             'waitForSync attempt as `startup first backend hdr loc`) / catchUpHashes, and of recovery inside start-up (recovery windows 3-20 generated). 31 theorems: for every valid evolution (reorg of any depth whose '
+             'waitForSync attempt as `startup first backend hdr loc`) / catchUpHashes, and of recovery inside start-up (recovery windows 3-20 generated). 32 theorems: for every valid evolution (reorg of any depth whose '
              'lowest replaced block is inside the stored window, wallet transactions anywhere in the new blocks, notified before or after BlockConnected) '
              'and every stream obtained from its notifications by inserting stale, repeated or future disconnects, redundant transaction notifications and '
              'rescan notifications for already-reached heights, no handler fails and afterwards synced-to = backend tip, every height in [lo, tip] stores '
@@ -343,7 +343,7 @@ CHECKS = {
              'every length of the new branch the repaired loop emits exactly emit c e; C15_bitcoind_rescan_refuted_at_pinned; premise bitcoind_rescan_steps_down regenerated (source shape, else '
              'probe). Tie: the real client\'s Rescan against the stub node, which switches branches when the client asks for its k-th block (above, at, below the fetched blocks, below the start '
              'block); the stream is applied to a real wallet and compared with the model in two phases (before / after the switch).',
-        note='Defect S18 (fix: 3affc57, found in round 5 by driving the real BitcoindClient.rescan against a node that reorganises during the rescan: the walk back kept the loop height, notified a block at the wrong height and then disconnected every block down to genesis; the wallet was rolled back to height 0) found and repaired, replays corpus/C15/bd_rescan_*.json. PARTIAL: a reorganisation reaching below the block the rescan started from is exercised and modelled (executable), not covered by the rescan theorem. Defect S17 (fix: a8a2d8c, found in round 5 by modelling the bitcoind client: BitcoindClient.reorg named every block after the first of a reorganisation deeper than one by the hash of the block BELOW it; the wallet ignored those disconnects and kept transactions confirmed in detached blocks) found and repaired, replay corpus/C15/bd_*.json. Defects S1 (fix: 8ce830b, disconnect handler stored the zero hash) and S16 (fix: 9a2bd3a, with a recovery window the address recovery ran BEFORE the start-up rollback loop and moved synced-to onto the new tip, so an offline reorganisation that also made the chain higher was never rolled back: stale hashes, transactions confirmed in vanished blocks) found and repaired; replays run first from corpus/C15. The order of the two start-up stages is a fact regenerated from syncWithChain (recovery_before_rollback); C15_startup_recovery_after_rollback is the theorem for this tree, C15_startup_recovery_before_rollback_partial states what the other order gives. What decides: synced-to height and hash, ChainSynced, hashes '
+        note='Defect S18 (fix: 3affc57, found in round 5 by driving the real BitcoindClient.rescan against a node that reorganises during the rescan: the walk back kept the loop height, notified a block at the wrong height and then disconnected every block down to genesis; the wallet was rolled back to height 0) found and repaired, replays corpus/C15/bd_rescan_*.json. A reorganisation reaching below the block the rescan started from is covered by C15_bitcoind_rescan_follows_reorg_from_any_start (the header list may stop anywhere; the loop then asks the node). Defect S17 (fix: a8a2d8c, found in round 5 by modelling the bitcoind client: BitcoindClient.reorg named every block after the first of a reorganisation deeper than one by the hash of the block BELOW it; the wallet ignored those disconnects and kept transactions confirmed in detached blocks) found and repaired, replay corpus/C15/bd_*.json. Defects S1 (fix: 8ce830b, disconnect handler stored the zero hash) and S16 (fix: 9a2bd3a, with a recovery window the address recovery ran BEFORE the start-up rollback loop and moved synced-to onto the new tip, so an offline reorganisation that also made the chain higher was never rolled back: stale hashes, transactions confirmed in vanished blocks) found and repaired; replays run first from corpus/C15. The order of the two start-up stages is a fact regenerated from syncWithChain (recovery_before_rollback); C15_startup_recovery_after_rollback is the theorem for this tree, C15_startup_recovery_before_rollback_partial states what the other order gives. What decides: synced-to height and hash, ChainSynced, hashes '
              "in [lo, synced height], confirmed and unconfirmed records, whether a start-up attempt fails; a handler's error flag, the synced-to "
              "timestamp, hashes outside [lo, tip] and the birthday block are counted as drift only. Defect outside the property's quantifier (needs a "
              'backend failure), predicted by the model (C15_first_sync_repeated_partial) and reproduced (fixed input 1506): when NotifyBlocks or the '
